@@ -506,7 +506,17 @@ impl Exec {
         if pos.strict_validity_error().is_some() {
             return Ok(Flow::Go);
         }
-        let game = match guard(|| Game::from_str(text)) {
+        let initial = text.starts_with("rnbqkbnr/pppppppp/8/8/8/8/PPPPPPPP/RNBQKBNR w KQkq -");
+        let game = match guard(|| {
+            // the initial position also has two dedicated constructors
+            if initial && pos.fullmove % 3 == 1 {
+                Ok(Game::new())
+            } else if initial && pos.fullmove % 3 == 2 {
+                Ok(Game::new_with_board(Board::default()))
+            } else {
+                Game::from_str(text)
+            }
+        }) {
             Ok(Ok(g)) => g,
             Ok(Err(e)) => {
                 if self.on(7) {
